@@ -102,6 +102,8 @@ def c03(tier, seed):
         S("Cotton", seed=seed + 12, regime="wet", soil_spec=L.LAYERED_SOILS["low_ksat"], iwc={"value": ["FC", "SAT"], "depth_layer": [1, 2]}, events=storms),
     ]
     scs += L.diverse(rnd, 220 if tier == "thorough" else 5, focus="no_restrictive") + L.hard_cases(rnd)
+    # the full sweep of pond depths behind bunds (hard_cases carries three of them)
+    scs += L.shallow_pond_cases(rnd, 2001, storms=(13, 16, 19, 22, 25, 28) if tier != "thorough" else tuple(range(10, 40)))
     return scs
 
 
